@@ -197,8 +197,9 @@ def crash_class(r, harness=None, mode=None, line=None):
         kind = 'timeout'
     # attribution: the first report stack must contain a frame of the implementation under test
     first = text.split('\n\n')[0] if text else ''
-    in_impl = bool(re.search(r'/wasi/wasi\.c:\d+', first))
-    fn = re.search(r' in (\w+) [^\n]*/wasi/wasi\.c:(\d+)', text)
+    # (file:line when the report is symbolized; the function names of wasi.c are present either way)
+    in_impl = bool(re.search(r'/wasi/wasi\.c:\d+', first)) or bool(re.search(r' in (wasi[A-Z]\w*|wasi_snapshot_preview1__\w+|wasi_unstable__\w+) ', first))
+    fn = re.search(r' in (\w+) [^\n]*/wasi/wasi\.c:(\d+)', text) or re.search(r' in (wasi[A-Z]\w*|wasi_snapshot_preview1__\w+|wasi_unstable__\w+) ', first)
     where = '%s' % fn.group(1) if fn else '?'
     return kind, in_impl, where, text[:2500]
 
